@@ -44,6 +44,9 @@ func NewEntity(eType model.EntityTypeType, deviceAddress *model.AddressDeviceTyp
 }
 
 func (r *Entity) Address() *model.EntityAddressType {
+	r.muxGenerator.Lock()
+	defer r.muxGenerator.Unlock()
+
 	return r.address
 }
 
